@@ -28,7 +28,9 @@ def check(rep, model, tier):
     gsite = f'{g.path}:{g.node.lineno} compute_features_2d[axis=None]'
     K = grp.K
     nobm = grp.without(K(2), 'burst_method')         # an option set without burst_method: the documented default 'cycles' applies
-    scen = {'None': NONE, 'dict': K(0), 'list3': ('list', (K(0), K(1, 'amp'), nobm)), 'list2': ('list', (K(0), K(1, 'amp')))}
+    scen = {'None': NONE, 'dict': K(0), 'list3': ('list', (K(0), K(1, 'amp'), nobm)), 'list2': ('list', (K(0), K(1, 'amp'))),
+            'list2same': ('list', (K(0), K(0)))}          # two epochs given equal option sets are still re-labelled one by one
+    per_epoch = {'list3': [('cycles', 'tk0'), ('amp', 'tk1'), ('cycles', 'tk2')], 'list2': [('cycles', 'tk0'), ('amp', 'tk1')], 'list2same': [('cycles', 'tk0'), ('cycles', 'tk0')]}
     for label, kw in scen.items():
         res, ctx = grp.run2d(model, kw, NONE)
         cfs = [e for e in E.calls_to(ctx, 'compute_features') if e['kind'] == 'pkgcall']
@@ -65,7 +67,7 @@ def check(rep, model, tier):
                 rep.ok('RELABEL-ONLY-LIST', f'{label}:no re-labelling', gsite, found='no detector call; epoch_df result returned')
             continue
         # list: epoch k re-labelled with option set k
-        methods = ['cycles', 'amp', 'cycles'][:len(kw[1])]
+        methods = [m for m, _ in per_epoch[label]]
         nk = len(methods)
         ok = len(dets) == nk
         why = []
@@ -74,7 +76,7 @@ def check(rep, model, tier):
             if name != ('detect_bursts_cycles' if methods[k_] == 'cycles' else 'detect_bursts_amp'):
                 ok = False
                 why.append(f'epoch {k_}: detector {name} for burst_method {methods[k_]!r}')
-            if tuple(d.get('extra', ())) != (('param', f'tk{k_}'),):
+            if tuple(d.get('extra', ())) != (('param', per_epoch[label][k_][1]),):
                 ok = False
                 why.append(f'epoch {k_}: thresholds {[T.brief(x, 40) for x in d.get("extra", ())]}')
             tbl = d['args'][0] if d['args'] else None
